@@ -395,9 +395,9 @@ def set_eq_types(m, eqt):
     m.eq_type.assign(np.array(eqt, dtype=np.int32))
 
 
-def symbolic_stage(ctx, stage, eqt=None):
+def symbolic_stage(ctx, stage, eqt=None, ntree=3):
   c28.engine_workaround()
-  mjm, m, d = build(tendons="two" if stage == "equality" else "full")
+  mjm, m, d = build(tendons="two" if stage == "equality" else "full", ntree=ntree)
   set_eq_types(m, eqt)
   m2 = sym_model(m, [x for x in STAGE_SYM_MODEL[stage] if not (eqt is not None and x == "eq_type")])
   if stage == "sleep":
@@ -434,11 +434,11 @@ def stage_arrays(model, m2, d2, stage):
   return out
 
 
-def unit_stage(stage, eqt=None):
+def unit_stage(stage, eqt=None, ntree=3):
   def run(ctx):
     from mujoco_warp._src import sleep
 
-    mjm, m, d, m2, d2, S, hr = symbolic_stage(ctx, stage, eqt)
+    mjm, m, d, m2, d2, S, hr = symbolic_stage(ctx, stage, eqt, ntree)
     ctx.encode(getattr(sleep, {"sleep": "sleep", "wake": "wake", "collision": "wake_collision", "tendon": "wake_tendon", "equality": "wake_equality"}[stage]))
     pre = []
     for text, f in state_pre(S, stage):
@@ -452,7 +452,7 @@ def unit_stage(stage, eqt=None):
     if stage == "sleep":
       names.update({f"island{t}": S.tree_island[t] for t in range(n)})
       names["nisland"] = S.nisland
-    rp = lambda qn: (lambda model: write_and_run(ctx, qn, {"kind": "stage", "stage": stage, "eqt": eqt, "arrays": stage_arrays(model, m2, d2, stage)}))
+    rp = lambda qn: (lambda model: write_and_run(ctx, qn, {"kind": "stage", "stage": stage, "eqt": eqt, "ntree": ntree, "arrays": stage_arrays(model, m2, d2, stage)}))
     ctx.reach(sess, "twin:pre-state", True)
     ctx.reach(sess, "twin:two-cycle-and-awake-tree", And(cmp("==", S.tree_asleep0[0], 1), cmp("==", S.tree_asleep0[1], 0), cmp("==", S.tree_asleep0[2], -3)))
     if stage == "sleep":
@@ -467,7 +467,7 @@ def unit_stage(stage, eqt=None):
       ctx.prove(sess, qn, goal, guard, names=names, replay=rp(qn), desc=f"{stage}: {what}")
     obligations(ctx, sess, hr, names, rp)
 
-  return (f"stage/{stage}" + ("" if eqt is None else "/types" + "".join(str(x) for x in eqt)), run)
+  return (f"stage/{stage}" + ("" if eqt is None else "/types" + "".join(str(x) for x in eqt)) + ("" if ntree == 3 else f"/ntree{ntree}"), run)
 
 
 def unit_sleep_asleep_rows(ctx):
@@ -618,7 +618,7 @@ def unit_frozen(ctx):
   v = Vec([z3.Real(f"v{i}") for i in range(3)], (3,), "f")
   it, ret = kh.run(mmath.quat_integrate, [q, v, z3.Real("dt")])
   # non-incremental solver (tactic front end): z3's incremental core is two orders of magnitude slower on this NRA query
-  sessq = ctx.session([core.zbool(a) for a in it.assumes] + [sum(c * c for c in q.c) == 1] + [c == 0 for c in v.c], tactic="default")
+  sessq = ctx.session([core.zbool(a) for a in it.assumes] + [sum(c * c for c in q.c) == 1] + [c == 0 for c in v.c], timeout_ms=180000, tactic="default")
   ctx.reach(sessq, "twin:quat_integrate-lemma", True)
   ctx.prove(sessq, "lemma/quat_integrate-zero-velocity", And(*[cmp("==", r, c) for r, c in zip(ret.c, q.c)]), True, replay=lambda model: (True, "model only"), desc="quat_integrate(q, 0, dt) != q for a unit quaternion")
   nfresh = [0]
@@ -750,7 +750,7 @@ def real_order(sp):
 
 def real_stage(sp):
   stage = sp["stage"]
-  mjm, m, d = build(tendons="two" if stage == "equality" else "full")
+  mjm, m, d = build(tendons="two" if stage == "equality" else "full", ntree=sp.get("ntree") or 3)
   set_eq_types(m, sp.get("eqt"))
   for n, vals in sp["arrays"].items():
     obj = m if n.startswith("m.") else d
@@ -968,6 +968,9 @@ def main(tier, seed, only=None):
   units = [("validate-reference", unit_validate)] + [unit_stage(s) for s in ("sleep", "wake", "collision", "tendon")]
   units.append(("stage/sleep-asleep-rows", unit_sleep_asleep_rows))
   units += [("update_sleep", unit_update), ("frozen", unit_frozen), ("order/wake_collision", unit_order)]
+  if tier == "thorough":
+    units += [unit_stage(s, ntree=4) for s in ("sleep", "wake", "collision", "tendon")]
+    units += [unit_stage("equality", (a, b), ntree=4) for a, b in ((EQ_CONNECT, EQ_JOINT), (EQ_WELD, EQ_TENDON), (EQ_TENDON, EQ_TENDON))]
   eq_types = (EQ_CONNECT, EQ_WELD, EQ_JOINT, EQ_TENDON)
   units += [unit_stage("equality", (a, b)) for a in eq_types for b in eq_types]
   if only:
